@@ -444,11 +444,11 @@ pub struct Scaled {
 
 impl Suite for Scaled {
     fn len(&self) -> u64 {
-        self.max_k as u64 * 8
+        self.max_k as u64 * 10
     }
     fn get(&self, i: u64) -> Case {
-        let k = (i / 8 + 1) as usize;
-        let shape = i % 8;
+        let k = (i / 10 + 1) as usize;
+        let shape = i % 10;
         let mut t = String::new();
         match shape {
             0 => {
@@ -507,6 +507,28 @@ impl Suite for Scaled {
                 }
                 t.push_str("Last);\n");
             }
+            8 => {
+                // a multi-line literal k blocks deep
+                for j in 0..k {
+                    t.push_str(&format!("{}begin\n", " ".repeat(j)));
+                }
+                t.push_str("X := \'\'\'\n   first line\n     second\n\n   \'\'\' + Y;\n");
+                t.push_str("Foo(\'\'\'\n a\n \'\'\', 2);\n");
+                for j in (0..k).rev() {
+                    t.push_str(&format!("{}end;\n", " ".repeat(j)));
+                }
+            }
+            9 => {
+                // nested records k deep with a field and a literal default
+                t.push_str("type\n");
+                for j in 0..k.min(30) {
+                    t.push_str(&format!("T{j} = record F{j}: Integer;\n"));
+                }
+                t.push_str("Inner: string;\n");
+                for _ in 0..k.min(30) {
+                    t.push_str("end;\n");
+                }
+            }
             _ => {
                 // nested anonymous routines
                 t.push_str("x := ");
@@ -521,5 +543,61 @@ impl Suite for Scaled {
             }
         }
         Case { text: t, well_formed: false, label: format!("scaled:shape{shape}:k{k}"), wrap_hint: None, meta: Value::Null }
+    }
+}
+
+// ------------------------------------------------------------------ C07: asm bodies
+
+/// Routines and statements with `asm ... end` bodies; the instruction lines (from the line break after `asm` to the end
+/// of the last instruction line) must be reproduced byte for byte.
+pub struct Asm {
+    pub count: u64,
+    pub seed: u64,
+}
+
+const ASM_LINES: [&str; 22] = [
+    "  mov   eax,  1", "@L1:   add eax,ebx", "    push ebx;  pop  ebx", "  mov al, 'a'", "  db \"str\\\"ing\" , 0",
+    "  mov eax,{$ifdef CPUX64}1   {$else}2{$endif}", "  jmp  @@end_label", "  mov eax, [ebx+4*ecx]  // comment", "  {comment}   nop",
+    "\tRET", "  mov eax, 0FFh", "  and eax, 1010b", "  call   System.@HandleFinally", "  MOV  ECX , [EAX].TFoo.Bar", "   lea  rax,[rip+Value]",
+    "  fld   qword ptr [esp]", "  db 0,1 , 2,3", "@@end_label:", "  mov &end1, 1", "  mov ax, 17o ; inc   ax", "    xor\teax,\teax", "  test al, $80",
+];
+
+impl Suite for Asm {
+    fn len(&self) -> u64 {
+        self.count
+    }
+    fn get(&self, i: u64) -> Case {
+        let mut rng = StdRng::seed_from_u64(self.seed.wrapping_mul(0x9E3779B97F4A7C15).wrapping_add(i));
+        let nblocks = rng.gen_range(1..3);
+        let mut text = String::new();
+        let mut regions = vec![];
+        let crlf = rng.gen_range(0..5) == 0;
+        let nl = if crlf { "\r\n" } else { "\n" };
+        for b in 0..nblocks {
+            let form = rng.gen_range(0..4);
+            match form {
+                0 => text.push_str(&format!("procedure P{b};{nl}asm")),
+                1 => text.push_str(&format!("function F{b}(A: Integer): Integer;   assembler;{nl}  asm")),
+                2 => text.push_str(&format!("procedure Q{b};{nl}begin{nl}  X:=1;{nl}    asm")),
+                _ => text.push_str(&format!("procedure R{b};{nl}var I:Integer;{nl}begin if A then{nl}asm")),
+            }
+            let start = text.len();
+            let k = rng.gen_range(1..7);
+            for _ in 0..k {
+                text.push_str(nl);
+                if rng.gen_range(0..8) == 0 {
+                    text.push_str(nl); // a blank line between instructions
+                }
+                text.push_str(ASM_LINES[rng.gen_range(0..ASM_LINES.len())]);
+            }
+            regions.push((start, text.len()));
+            match form {
+                0 | 1 => text.push_str(&format!("{nl}end;{nl}")),
+                2 => text.push_str(&format!("{nl}   end ;{nl}  Y:=2;{nl}end;{nl}")),
+                _ => text.push_str(&format!("{nl}end;{nl}end;{nl}")),
+            }
+        }
+        let meta = serde_json::json!({"prog": {"marks": [], "nplain": 0, "regions": regions, "alts": [], "decorated": 0, "idents": []}});
+        Case { text, well_formed: true, label: format!("asm#{i}"), wrap_hint: None, meta }
     }
 }
